@@ -182,30 +182,46 @@ func checkLockBalance(c *an.Ctx, id string, fns ...*ssa.Function) int {
 	return total
 }
 
-// lockSpec attaches the lock-balance rule to a clause of a property: the functions
-// (by name prefix) whose mutex discipline that clause's liveness depends on.
+// lockSpec attaches the lock-balance rule to a clause of a property: every function of the
+// package that operates on the named mutex field (wherever a refactoring moves the operations),
+// i.e. the mutex discipline that clause's liveness depends on.
 type lockSpec struct {
-	id       string
-	prefixes []string
-	min      int // mutex operations confirmed by hand on the pinned tree
-	why      string
+	id    string
+	pkg   string // function-name prefix of the package, e.g. "store."
+	mutex string // field name of the mutex, e.g. "onDeleteMu" ("RWMutex" for an embedded one)
+	min   int    // mutex operations confirmed by hand on the pinned tree
+	why   string
 }
 
 var lockTable = map[string][]lockSpec{
-	"C03": {{"C03.e", []string{"sync.(*Syncer).incomingNetworkHead"}, 2, "incomingMu serialises the acceptance of network heads"}},
-	"C04": {{"C04.a", []string{"store.(*batch)."}, 16, "the pending batch is read by every lookup"}},
-	"C11": {{"C11.e", []string{"p2p.(*Subscriber).SetVerifier"}, 2, "verifierMu guards the one-time registration"}},
-	"C12": {{"C12.c", []string{"store.(*heightSub)."}, 8, "heightSubsLk orders waiters against publications"}},
-	"C14": {{"C14.a", []string{"store.(*Store).OnDelete", "store.(*Store).deleteSequential", "store.(*Store).deleteParallel"}, 6, "onDeleteMu guards the handler list"}},
-	"C17": {{"C17.d", []string{"store.(*batch)."}, 16, "the pending batch is shared by the writer and all readers"}},
-	"C18": {{"C18.d", []string{"p2p.(*peerQueue).", "p2p.(*peerStat).", "p2p.(*peerTracker)."}, 20, "the peer queue and the tracker are shared by all request goroutines"}},
-	"C19": {{"C19.c", []string{"sync.(*syncHead).Head"}, 4, "headMu guards the single-flight state"}},
+	"C03": {{"C03.e", "sync.", "incomingMu", 2, "incomingMu serialises the acceptance of network heads"}},
+	"C04": {{"C04.a", "store.(*batch).", "lk", 8, "the pending batch is read by every lookup"}},
+	"C07": {{"C07.d", "sync.", "stateLk", 4, "stateLk guards the sync state"}, {"C07.e", "sync.(*ranges).", "lk", 4, "the queue of pending ranges"}, {"C07.e", "sync.(*headerRange).", "lk", 6, "each pending range"}},
+	"C11": {{"C11.e", "p2p.", "verifierMu", 2, "verifierMu guards the one-time registration"}},
+	"C12": {{"C12.c", "store.", "heightSubsLk", 6, "heightSubsLk orders waiters against publications"}},
+	"C14": {{"C14.a", "store.", "onDeleteMu", 2, "onDeleteMu guards the handler list"}},
+	"C17": {{"C17.d", "store.(*batch).", "lk", 8, "the pending batch is shared by the writer and all readers"}},
+	"C18": {{"C18.d", "p2p.", "statsLk", 2, "the peer queue"}, {"C18.d", "p2p.", "peerLk", 6, "the peer tracker"}, {"C18.d", "p2p.(*peerStat).", "RWMutex", 4, "per-peer statistics"}},
+	"C19": {{"C19.c", "sync.", "headMu", 4, "headMu guards the single-flight state"}},
 }
 
 func runLockTable(prop string, c *an.Ctx) {
 	for _, ls := range lockTable[prop] {
-		n := checkLockBalance(c, ls.id, funcsNamed(c.P, ls.prefixes...)...)
-		c.Min(ls.id, "mutex operations with balanced acquisition ("+ls.why+")", n, ls.min)
+		var fns []*ssa.Function
+		for _, fn := range funcsNamed(c.P, ls.pkg) {
+			t := c.T(fn)
+			uses := false
+			an.Instrs(fn, func(in ssa.Instruction) {
+				if op, ok := lockOpOf(t, in); ok && strings.HasSuffix(op.key, "."+ls.mutex) {
+					uses = true
+				}
+			})
+			if uses {
+				fns = append(fns, fn)
+			}
+		}
+		n := checkLockBalance(c, ls.id, fns...)
+		c.Min(ls.id, "mutex operations on "+ls.mutex+" with balanced acquisition ("+ls.why+")", n, ls.min)
 	}
 }
 
